@@ -1,5 +1,23 @@
 """C17 — validation reports exactly the failing fields and rules, after a full load."""
 
+TEXT_THEOREMS = [
+    "BSVerif.Props.C17Text.phone_digit_bounds_inclusive",
+    "BSVerif.Props.C17Text.phone_not_loaded_passes",
+    "BSVerif.Props.C17Text.email_not_loaded_passes",
+    "BSVerif.Props.C17Text.phone_accept_sound",
+    "BSVerif.Props.C17Text.phone_reject_sound",
+    "BSVerif.Props.C17Text.phone_pass_not_rejected",
+    "BSVerif.Props.C17Text.phone_total",
+    "BSVerif.Props.C17Text.phone_nested_message_unreachable",
+    "BSVerif.Props.C17Text.email_pass_iff",
+    "BSVerif.Props.C17Text.email_accept_sound",
+    "BSVerif.Props.C17Text.email_reject_sound",
+    "BSVerif.Props.C17Text.email_pass_not_rejected",
+    "BSVerif.Props.C17Text.email_total",
+    "BSVerif.Props.C17Text.spec_verdicts_consistent",
+    "BSVerif.Props.C17Text.text_constants_match_code",
+]
+
 THEOREMS = [
     "BSVerif.Props.C17.throws_iff",
     "BSVerif.Props.C17.reports_exact",
@@ -13,19 +31,32 @@ THEOREMS = [
     "BSVerif.Props.C17.maxSize_semantics",
     "BSVerif.Props.C17.check_iff_fails",
     "BSVerif.Props.C17.required_default_message",
-]
+] + TEXT_THEOREMS
 RULE = ("fixed C++ classes (flat: int64/string/optional/vector fields; nested; class inside vector; class inside map) whose KeyValues "
         "carry 4 runtime-configured validator slots each (the REAL Required/Range/MinSize/MaxSize/Email/PhoneNumber functors and custom "
         "lambdas, default and custom messages, any subset and order) x documents in which each field is present-valid, at / just inside / "
         "just outside each bound, absent, nil or of another kind (skipped) x maxValidationErrors in {0,1,2,3,4,6} x shuffled field order in the "
-        "document; loaded from MsgPack built by an independent encoder; non-trivial = a ValidationException was thrown; distinct = distinct op lines")
+        "document; loaded from MsgPack built by an independent encoder. PLUS the real PhoneNumber / Email functors called directly "
+        "(val.phone* / val.email*) on std::string, const char*, u16string, u32string, wstring: numbers of the documented shape with "
+        "min-2..max+2 digits for 13 (min,max,plus) configurations incl. min = max and min > max; every single-unit deletion / replacement / "
+        "insertion (35 boundary units: neighbours of every character class, NUL, >= 0x80; wide units whose low byte is an allowed character) of "
+        "valid numbers and addresses; every unit value 0..255 in every kind of position; every part of an address at / below / over its "
+        "limit (local 64, label 63, domain 255, total 254); dots, '@', hyphens, quoted / commented / literal forms; random strings over "
+        "the two alphabets; not-loaded values. non-trivial = a ValidationException was thrown (val.load) / the functor answered for a "
+        "loaded value (val.phone*, val.email*); distinct = distinct op lines")
 EXHAUSTIVE = {"quick": False, "thorough": False}
-ASSUMPTIONS = ["Email and PhoneNumber are exercised on a fixed list of addresses/numbers with the expected classification carried in the op; "
-               "their character-level rules are not modelled",
+ASSUMPTIONS = ["inside a LOAD (val.load) Email / PhoneNumber still carry the expected classification in the op (fixed lists); their "
+               "character-level rules are modelled and judged by the direct ops val.email* / val.phone*",
+               "Email: strings shorter than 2^31 units (str.size() is narrowed to int; the model has a distinguished outcome beyond)",
+               "the Spec of the text validators is three-valued: where the documentation is silent (leading/trailing/double spaces, spaces "
+               "around a dash, several '+', '+' inside parentheses, dash next to a parenthesis, empty parentheses; a label beginning with a "
+               "digit, an address longer than 254 units) the oracle answers nospec and only the correspondence with the model applies",
                "keys of one object are distinct (then the error paths are distinct); array positions in paths are the code's 1-based positions",
                "the MsgPack archive; the three text archives build paths the same way but are not run here",
                "integer<->boolean funnelling (C04) is not generated"]
-TRUSTED = ["runtime-configured validator slots in harness/ops_valid.cpp dispatch to the real functors of validators.h"]
+TRUSTED = ["runtime-configured validator slots in harness/ops_valid.cpp dispatch to the real functors of validators.h",
+           "harness/ops_valid.cpp recognises the PhoneNumber message class from the default message text",
+           "harness/dump/dump_textvalid.cpp reads the function-local tables/limits of Email off the compiled functor by probing"]
 
 CAPS = [0, 1, 2, 3]
 
@@ -53,7 +84,302 @@ FIELD = {"i": (INT_VALIDATORS, INT_VALUES), "s": (STR_VALIDATORS, STR_VALUES), "
 
 
 def nontrivial(op, impl):
-    return impl.startswith("validation")
+    if op.startswith("val.load"):
+        return impl.startswith("validation")
+    return impl == "pass" or impl.startswith("fail:")
+
+
+# ------------------------------------------------------------------------------------------------------------
+# the text validators called directly: val.phone* / val.email*
+# ------------------------------------------------------------------------------------------------------------
+PHONE_CFGS = [(7, 15, 1), (7, 15, 0), (6, 12, 1), (10, 10, 1), (10, 10, 0), (1, 1, 0), (4, 6, 0), (1, 3, 1), (0, 0, 0), (0, 5, 0),
+              (3, 2, 0), (15, 15, 1), (1, 40, 1)]
+# units tried in every position of a valid string: the neighbours of each character class the validators test
+# ('/' ':' around digits, ',' '.' around '+' '-', '\'' '*' around '(' ')', '@' 'A' 'Z' '[' '`' 'a' 'z' '{' around letters, '~' DEL),
+# NUL, bytes >= 0x80
+MUT_UNITS = [0x00, 0x09, 0x1f, 0x20, 0x21, 0x22, 0x27, 0x28, 0x29, 0x2a, 0x2b, 0x2c, 0x2d, 0x2e, 0x2f, 0x30, 0x35, 0x39, 0x3a, 0x3c, 0x40, 0x41,
+             0x5a, 0x5b, 0x5f, 0x60, 0x61, 0x7a, 0x7b, 0x7e, 0x7f, 0x80, 0xa0, 0xe9, 0xff]
+WIDE_UNITS = [0x100, 0x12b, 0x130, 0x140, 0x22d, 0x2e, 0x661, 0xff10, 0xff0b, 0xff20, 0xd800, 0xffff]       # low byte '+','0','@','-','.' : a truncating comparison would accept
+WIDE32_UNITS = [0x10030, 0x1002b, 0x10040, 0x1f4de, 0x10ffff, 0x80000030, 0xffffff2d, 0xffffffff]
+
+
+def units_of(text):
+    return [ord(c) for c in text] if isinstance(text, str) else list(text)
+
+
+def hexb(units):
+    return "".join("%02x" % u for u in units) if units else "-"
+
+
+def hexu(units):
+    return ".".join("%x" % u for u in units) if units else "-"
+
+
+def phone_op(cfg, units, loaded=1, kind=""):
+    units = units_of(units)
+    body = hexb(units) if kind in ("", "z") else hexu(units)
+    return "val.phone%s %d %d %d %d %s" % (kind, cfg[0], cfg[1], cfg[2], loaded, body)
+
+
+def email_op(units, loaded=1, kind=""):
+    units = units_of(units)
+    body = hexb(units) if kind in ("", "z") else hexu(units)
+    return "val.email%s %d %s" % (kind, loaded, body)
+
+
+def split_digits(rng, n):
+    """n digits in groups"""
+    groups = []
+    while n > 0:
+        k = min(n, rng.choice([1, 2, 2, 3, 3, 4, 5]))
+        groups.append("".join(rng.choice("0123456789") for _ in range(k)))
+        n -= k
+    return groups
+
+
+def phone_shape(rng, n, plus, style):
+    """a number of the documented shape with exactly n digits (n >= 1)"""
+    if style == "plain":
+        groups = ["".join(rng.choice("0123456789") for _ in range(n))]
+    else:
+        groups = split_digits(rng, n)
+    out = "+" if plus else ""
+    prev_par = False
+    for j, g in enumerate(groups):
+        par = style in ("paren", "mixed") and rng.random() < (0.5 if style == "mixed" else 0.35)
+        if style == "paren" and j == min(1, len(groups) - 1):
+            par = True
+        if j > 0:
+            if style in ("dash", "mixed") and not par and not prev_par and rng.random() < (0.8 if style == "dash" else 0.4):
+                out += "-"
+            else:
+                out += " "
+        out += "(" + g + ")" if par else g
+        prev_par = par
+    return out
+
+
+def mutations(units, alphabet):
+    """every single-unit deletion, replacement and insertion"""
+    out = []
+    for i in range(len(units) + 1):
+        if i < len(units):
+            out.append(units[:i] + units[i + 1:])
+        for a in alphabet:
+            if i < len(units) and units[i] != a:
+                out.append(units[:i] + [a] + units[i + 1:])
+            out.append(units[:i] + [a] + units[i:])
+    return out
+
+
+PHONE_MISUSE = [
+    "", " ", "+", "-", "(", ")", "()", "+()", "+ ", " +", "++1234567", "+ +1234567", "+1+234567", "1+234567", "+(+1)234567", "(+1) 234567",
+    "+1234567-", "+1234567- ", "+1234567 -", "+1234567 - ", "-1234567", "+-1234567", " -1234567", "+123--4567", "+123- -4567", "+123 - 4567",
+    "+123 -4567", "+123- 4567", "+123-(45)67", "+123 (45)-67", "+123(45)67", "+(123)4567", "+(123)-4567", "+1 (-23) 4567", "+1 (23-) 4567",
+    "+1 (2-3) 4567", "+1 ((23)) 4567", "+1 ((23) 4567", "+1 (23)) 4567", "+1 (23) 45)67", "+1 (23 4567", "+1 23) 4567", "+1 ( 23 ) 4567",
+    "+1 (2 3) 4567", "+1 () 234567", "+1 ( ) 234567", "+1 (23) (45) 67", "+1 (23)(45) 67", "(1234567)", "+(1234567)", "+(1234567", "+1234567(",
+    "+1234567()", "+1234567 ()", "+1234567 )", ")1234567(", "+12  34567", "  +1234567", "+1234567  ", " +91 - 22 - 27782183 ", "+1\t234567", "+1.234.567",
+    "+1/234567", "+1:234567", "+1234567a", "a+1234567", "+1234567\x00", "+123\x004567", "\x00+1234567", "+1234567\n", "+12345é7".encode("latin-1"),
+    "+1234567890123456789012345678901234567890", "+" + "1" * 300, "+" + "1 " * 200, "(" * 3 + "1234567" + ")" * 3, "+1-2-3-4-5-6-7", "+1 2 3 4 5 6 7",
+    "+(1) (2) (3) (4) (5) (6) (7)", "+1234567-8", "+1234567 8", "+1234567 (8)", "+555 (55) 555-55-55", "(55) 555 55 55", "555 5 55 55",
+]
+
+
+def gen_phone(tier, rng, boost):
+    thorough = tier != "quick"
+    ops = []
+    seen_n = set()
+    # digit counts at and around both bounds, every configuration, several documented shapes
+    for cfg in PHONE_CFGS:
+        lo, hi, plus = cfg
+        counts = sorted({n for b in (lo, hi) for n in range(b - 2, b + 3) if n >= 0} | {0, 1})
+        for n in counts:
+            for style in ("plain", "space", "dash", "paren", "mixed"):
+                for with_plus in ((1,) if plus else (0, 1)):
+                    reps = 1 if style == "plain" else (3 if not thorough else 12)
+                    for _ in range(reps * boost):
+                        text = phone_shape(rng, n, with_plus, style) if n > 0 else ("+" if with_plus else "")
+                        ops.append(phone_op(cfg, text))
+                        if rng.random() < 0.15:
+                            ops.append(phone_op(cfg, text, kind=rng.choice(["16", "32", "w", "z"])))
+            # the plus is missing although required / present although optional
+            ops.append(phone_op(cfg, phone_shape(rng, max(lo, 1), 0, "space")))
+            ops.append(phone_op(cfg, phone_shape(rng, max(lo, 1), 1, "dash")))
+    # hand-picked misuse of spaces, dashes, parentheses, plus
+    for text in PHONE_MISUSE:
+        for cfg in ((7, 15, 1), (7, 15, 0), (1, 40, 1), (0, 5, 0)):
+            ops.append(phone_op(cfg, text))
+        ops.append(phone_op((7, 15, 0), text, kind="z"))
+        ops.append(phone_op((7, 15, 1), text, kind=rng.choice(["16", "32", "w"])))
+        ops.append(phone_op((7, 15, 1), text, loaded=0))
+    # every single-unit mutation of valid numbers
+    bases = [((7, 15, 1), "+555 (55) 555-55-55"), ((7, 15, 0), "(55) 555 55 55"), ((7, 15, 0), "555 5 55 55"), ((6, 12, 1), "+12 345-67"),
+             ((10, 10, 1), "+1234567890"), ((7, 7, 0), "123-45-67"), ((1, 3, 0), "(1) 2")]
+    if thorough:
+        bases += [(rng.choice(PHONE_CFGS[:7]), phone_shape(rng, rng.randrange(5, 13), rng.random() < 0.7, rng.choice(["space", "dash", "paren", "mixed"])))
+                  for _ in range(40)]
+    for cfg, base in bases:
+        for m in mutations(units_of(base), MUT_UNITS):
+            ops.append(phone_op(cfg, m))
+    for cfg, base in bases[:3]:
+        u = units_of(base)
+        for i in range(len(u) + 1):
+            for a in WIDE_UNITS:
+                ops.append(phone_op(cfg, u[:i] + [a] + u[i + 1:], kind=rng.choice(["16", "w"])))
+            for a in WIDE32_UNITS:
+                ops.append(phone_op(cfg, u[:i] + [a] + u[i:], kind=rng.choice(["32", "w"])))
+    # every unit value once in the middle of an otherwise valid number (the whole character classification)
+    for c in range(256):
+        ops.append(phone_op((6, 12, 1), units_of("+12") + [c] + units_of("3456")))
+        ops.append(phone_op((6, 12, 0), [c] + units_of("123456")))
+    for c in range(256, 256 + 128):
+        ops.append(phone_op((6, 12, 1), units_of("+12") + [c] + units_of("3456"), kind="16"))
+        ops.append(phone_op((6, 12, 1), units_of("+12") + [c + 0x10000 - 256] + units_of("3456"), kind="32"))
+    # random strings over the alphabet of phone numbers (short: every state of the scanner is reached)
+    alpha = "0123456789" + "+ -()" * 3 + "a"
+    for _ in range((2500 if not thorough else 150000) * boost):
+        n = rng.choice([0, 1, 2, 3, 4, 5, 6, 7, 8, 10, 12, 16])
+        text = "".join(rng.choice(alpha) for _ in range(n))
+        ops.append(phone_op(rng.choice([(1, 3, 0), (1, 3, 1), (2, 4, 0), (0, 0, 0), (4, 6, 1), (1, 40, 0)]), text, loaded=0 if rng.random() < 0.03 else 1,
+                            kind=rng.choice(["", "", "", "z", "16", "32", "w"])))
+    return ops
+
+
+def label(rng, n, chars="abcdefghijklmnopqrstuvwxyzABCDEFGHIJKLMNOPQRSTUVWXYZ0123456789-"):
+    """an RFC label of n units: starts with a letter, ends with a letter or digit"""
+    if n <= 0:
+        return ""
+    s = [rng.choice("abcxyzABCXYZ")]
+    for _ in range(n - 2):
+        s.append(rng.choice(chars))
+    if n > 1:
+        s.append(rng.choice("abz019AZ"))
+    return "".join(s)
+
+
+ATEXT = "abcdefghijklmnopqrstuvwxyzABCDEFGHIJKLMNOPQRSTUVWXYZ0123456789!#$%&'*+-/=?^_`{|}~"
+
+
+def atom(rng, n):
+    return "".join(rng.choice(ATEXT) for _ in range(n))
+
+
+def domain_of(rng, total, first=None):
+    """a domain of exactly `total` units made of valid labels"""
+    labels = []
+    left = total
+    if first is not None:
+        labels.append(label(rng, first))
+        left -= first
+    while left > 0:
+        if labels:
+            left -= 1          # the dot
+            if left <= 0:
+                labels[-1] += "x" if len(labels[-1]) < 63 else ""
+                break
+        k = min(left, rng.choice([1, 2, 3, 5, 8, 20, 40, 63]))
+        if left - k == 1:      # a dot cannot be last: make room
+            k = left if left <= 63 else k - 1
+        labels.append(label(rng, k))
+        left -= k
+    return ".".join(labels)
+
+
+EMAIL_LITERALS = [
+    "", " ", "@", "a", "a@", "@b", "@b.com", "a@b", "a@b.c", "a@b.com", "simple@example.com", "very.common@example.com", "x@example.com",
+    "!#$%&'*+-/=?^_`{|}~@example.com", "0123456789@example.com", "A.B@C.D", "USER@EXAMPLE.COM", "User.Name+tag@Sub-Domain.Example.ORG",
+    "abc.example.com", "a@b@example.com", "a@@b.com", "a@b.com@", "@@", "a b@example.com", "a\tb@example.com", "a@b c.com", " a@b.com", "a@b.com ",
+    "\"john..doe\"@example.org", "\"a b\"@example.org", "\"a@b\"@example.org", "john(doe)@example.org", "(c)john@example.org", "john@example.org(c)",
+    "john,doe@example.org", "john:doe;@example.org", "john<doe>@example.org", "<john@example.org>", "john\\doe@example.org", "john[doe]@example.org",
+    "john\x7fdoe@example.org", "john\x00doe@example.org", "john@exam\x00ple.org", "john@example.org\x00", "\x00john@example.org",
+    ".name@example.com", "name.@example.com", "first..last@example.com", "first...last@example.com", ".@example.com", "..@example.com", "a.b.c.d@example.com",
+    "john@.example.com", "john@example.com.", "john@example..com", "john@.", "john@..", "john@.com", "john@com.", ".", "..", "a.", ".a", "a@b.", "a@.b",
+    "john@-example.com", "john@example-.com", "john@example.-com", "john@example.com-", "john@ex--ample.com", "john@e-x-a-m-p-l-e.com", "john@-", "john@a-", "john@-a",
+    "john@10example.com", "john@example10.com", "john@example.10com", "john@example.com1", "john@1.2.3.4", "john@123", "john@9", "john@a9", "john@a.9", "john@a.b9",
+    "john@[1.2.3.4]", "john@[IPv6:2001:db8::1]", "john@[example.com]", "john@example_com", "john@exa_mple.com", "john@example+com", "john@example/com", "john@example*com",
+    "john@example,com", "john@example:com", "john@example;com", "john@exam!ple.com", "john@exam@ple.com",
+    "jöhn@example.com".encode("utf-8"), "john@exämple.com".encode("utf-8"), "jöhn@example.com".encode("latin-1"), "john@example.cöm".encode("latin-1"),
+    "用户@例子.广告".encode("utf-8"), "john@xn--exmple-cua.com", "i.like.underscores@but_they_are_not_allowed_in_this_part",
+]
+
+
+def gen_email(tier, rng, boost):
+    thorough = tier != "quick"
+    ops = []
+    for text in EMAIL_LITERALS:
+        ops.append(email_op(text))
+        ops.append(email_op(text, kind="z"))
+        if not isinstance(text, bytes):
+            ops.append(email_op([ord(c) for c in text], kind=rng.choice(["16", "32", "w"])))
+        ops.append(email_op(text, loaded=0))
+    # wide strings with real non-ASCII units, and units whose low byte is an allowed character
+    for text in ["jöhn@example.com", "john@exämple.com", "用户@例子.广告", "john＠example.com", "john@example．com", "joŨn@example.com",
+                 "john@exšmple.com", "john@exampleĮcom", "johnŀexample.com"]:
+        for kind in ("16", "32", "w"):
+            ops.append(email_op([ord(c) for c in text], kind=kind))
+    # every part at, just below and just over its limit
+    for n in (1, 2, 62, 63, 64, 65, 66, 100, 300):
+        ops.append(email_op("a" * n + "@example.com"))
+        ops.append(email_op(atom(rng, n) + "@example.com"))
+        if n > 4:
+            ops.append(email_op("ab." + "c" * (n - 3) + "@example.com"))          # dots count
+            ops.append(email_op("a" * (n - 1) + ".@example.com"))
+            ops.append(email_op("a" * (n - 2) + ".b@example.com"))
+        ops.append(email_op([97] * n + units_of("@example.com"), kind=rng.choice(["16", "32", "w"])))
+    for n in (1, 2, 61, 62, 63, 64, 65, 66, 127, 128, 200):
+        ops.append(email_op("john@" + "a" * n + ".com"))
+        ops.append(email_op("john@" + "a" * n))
+        ops.append(email_op("john@example." + "a" * n))
+        ops.append(email_op("john@sub." + label(rng, n) + ".com"))
+        ops.append(email_op("john@" + "a" * (n - 1) + "-.com"))
+        ops.append(email_op("john@" + "a" * (n - 1) + "1.com"))
+        ops.append(email_op("john@a." + "b" * n + ".c." + "d" * n))
+        ops.append(email_op(units_of("john@") + [97] * n + units_of(".com"), kind=rng.choice(["16", "32", "w"])))
+    for total in (1, 2, 3, 63, 64, 127, 128, 188, 189, 190, 250, 251, 252, 253, 254, 255, 256, 257, 258, 300, 511, 512):
+        for _ in range(2 if not thorough else 8):
+            d = domain_of(rng, total)
+            if len(d) != total:
+                continue
+            for local in ("a", "john.doe", "a" * 64, "a" * 65):
+                ops.append(email_op(local + "@" + d))
+        ops.append(email_op("a@" + "b" * total))                                      # one over-long label
+    # well-formed addresses of every size and their single-unit mutations
+    bases = ["simple@example.com", "very.common+tag@sub-domain.example.org", "a@b.c", "A1!#x.y_z@Ab-9.Cd", "x@y"]
+    n_rand = 40 if not thorough else 1500
+    valid = []
+    for _ in range(n_rand * boost):
+        local = ".".join(atom(rng, rng.choice([1, 1, 2, 3, 5, 8])) for _ in range(rng.choice([1, 1, 2, 3])))
+        dom = ".".join(label(rng, rng.choice([1, 2, 3, 5, 9])) for _ in range(rng.choice([1, 2, 2, 3, 4])))
+        valid.append(local + "@" + dom)
+    for v in valid:
+        ops.append(email_op(v))
+        if rng.random() < 0.3:
+            ops.append(email_op(v, kind=rng.choice(["z", "16", "32", "w"])))
+    for base in bases + valid[:(6 if not thorough else 60)]:
+        for m in mutations(units_of(base), MUT_UNITS):
+            ops.append(email_op(m))
+    for base in bases[:2]:
+        u = units_of(base)
+        for i in range(len(u) + 1):
+            for a in WIDE_UNITS:
+                ops.append(email_op(u[:i] + [a] + u[i + 1:], kind=rng.choice(["16", "w"])))
+            for a in WIDE32_UNITS:
+                ops.append(email_op(u[:i] + [a] + u[i:], kind=rng.choice(["32", "w"])))
+    # every unit value in every kind of position (the whole character classification of both parts)
+    for c in range(256):
+        for pre, post in (("a", "b@ex.com"), ("", "@ex.com"), ("ab", "@ex.com"), ("ab@e", "x.com"), ("ab@", "x.com"), ("ab@x", ".com"), ("ab@ex.", "om"), ("ab@ex.co", "")):
+            ops.append(email_op(units_of(pre) + [c] + units_of(post)))
+    for c in list(range(256, 256 + 128)) + WIDE_UNITS:
+        ops.append(email_op(units_of("a") + [c] + units_of("b@ex.com"), kind="16"))
+        ops.append(email_op(units_of("ab@e") + [c] + units_of("x.com"), kind="w"))
+        ops.append(email_op(units_of("ab@e") + [c + 0x10000] + units_of("x.com"), kind="32"))
+    # random strings over the alphabet of addresses (short: every state of the scanner is reached)
+    alpha = "ab1-" * 3 + "..@@" * 2 + "_+ A"
+    for _ in range((2500 if not thorough else 150000) * boost):
+        n = rng.choice([1, 2, 3, 4, 5, 6, 7, 8, 10, 12])
+        text = "".join(rng.choice(alpha) for _ in range(n))
+        ops.append(email_op(text, loaded=0 if rng.random() < 0.03 else 1, kind=rng.choice(["", "", "", "z", "16", "32", "w"])))
+    return ops
 
 
 def obj(entries):
@@ -188,4 +514,7 @@ def gen(tier, rng, boost=1):
         else:
             entries = []
         ops.append(op("map", rng.choice(caps), cfg, obj(entries)))
+    # the text validators on arbitrary strings
+    ops += gen_phone(tier, rng, boost)
+    ops += gen_email(tier, rng, boost)
     return ops
